@@ -16,7 +16,7 @@ CLS = {"union": "Union", "opt": "Optional", "star": "ZeroOrMore", "plus": "OneOr
 
 
 class Engine:
-    def __init__(self, prj: Project, max_steps: int = 400000):
+    def __init__(self, prj: Project, max_steps: int = 1500000):
         self.prj = prj
         self.it = MiniInterp(prj, max_steps=max_steps, max_depth=60)
         base = prj.cls(f"{GSM}.operator.Operator:Operator")
